@@ -710,6 +710,70 @@ func c08Corpus(c *vk.Ctx, i int) {
 
 var _ = index.ItemKindSegment
 
+// c08OfflineSweep: the offline writer over EVERY number of flushed segments in a range (one tiny document
+// per flush) and several merge fan-ins: the index it leaves must hold exactly the inserted documents.
+func c08OfflineSweep(c *vk.Ctx) {
+	type job struct{ n, fanIn int }
+	var jobs []job
+	for n := 1; n <= c.Pick(100, 260); n++ {
+		jobs = append(jobs, job{n, 10})
+	}
+	for _, f := range []int{2, 3, 5, 7} {
+		for n := 1; n <= c.Pick(40, 120); n++ {
+			jobs = append(jobs, job{n, f})
+		}
+	}
+	var wg sync.WaitGroup
+	sem := make(chan struct{}, runtime.NumCPU())
+	for _, j := range jobs {
+		wg.Add(1)
+		sem <- struct{}{}
+		go func(j job) {
+			defer wg.Done()
+			defer func() { <-sem }()
+			dir := c.TempDir("c08-sweep-")
+			cfg := bluge.DefaultConfig(dir)
+			err, _, panicked := bx.Guarded(func() error {
+				ow, err := bluge.OpenOfflineWriter(cfg, 1, j.fanIn)
+				if err != nil {
+					return err
+				}
+				for k := 0; k < j.n; k++ {
+					d := bluge.NewDocument(fmt.Sprintf("s%04d", k)).AddField(bluge.NewKeywordField("k", fmt.Sprintf("v%d", k%7)))
+					if err := ow.Insert(d); err != nil {
+						return err
+					}
+				}
+				return ow.Close()
+			})
+			c.Eval(1)
+			c.Event("offline_sweep_builds", 1)
+			wit := map[string]interface{}{"documents": j.n, "batch_size": 1, "max_segments_per_merge": j.fanIn}
+			if panicked != "" || err != nil {
+				c.Violate("build-failed:offline-sweep", fmt.Sprintf("%d one-document flushes, fan-in %d: %v %s", j.n, j.fanIn, err, firstLines(panicked, 6)), wit)
+				return
+			}
+			rd, err := bluge.OpenReader(cfg)
+			if err != nil {
+				c.Violate("build-failed:offline-sweep", fmt.Sprintf("%d one-document flushes, fan-in %d: OpenReader: %v", j.n, j.fanIn, err), wit)
+				return
+			}
+			defer rd.Close()
+			hits, _, err := bx.SafeCollect(rd, bluge.NewAllMatches(bluge.NewMatchAllQuery()), false)
+			seen := map[string]bool{}
+			for _, h := range hits {
+				seen[h.ID] = true
+			}
+			if err != nil || len(hits) != j.n || len(seen) != j.n {
+				c.Violate("differs:offline:offline-sweep:match-set", fmt.Sprintf("OfflineWriter, %d documents inserted one per flush, merges of up to %d segments: the index holds %d documents (%d distinct ids, err %v)", j.n, j.fanIn, len(hits), len(seen), err), wit)
+				return
+			}
+			c.Distinct(fmt.Sprintf("offline-sweep|%d|%d", j.n, j.fanIn))
+		}(j)
+	}
+	wg.Wait()
+}
+
 func runC08(c *vk.Ctx) {
 	c.Rule("generated corpora (including the empty one) built by 14 recipes (one batch; one doc per batch; ice v2; each optimisation off; merge-happy in memory and on disk; close + OpenReader; reopened writer; v2 + merges + Backup + OpenReader; OfflineWriter with any batch size; OfflineWriter for a prefix then ordinary batches appended (merged segment before un-merged ones); history with junk inserts, updates and deletes; partition over k indexes + MultiSearch) x generated queries x 6 request forms (score order, all-matches, four field sorts), each also with score mode none on every layout; " +
 		"every build's answer compared with the one-batch build: id multiset, stored fields, order of distinct sort keys (tie groups as sets), aggregations, and scores where neither build has merged segments or pending deletions; " +
@@ -732,6 +796,8 @@ func runC08(c *vk.Ctx) {
 		}(w)
 	}
 	wg.Wait()
+	c08OfflineSweep(c)
+	c.Require("offline_sweep_builds", 100)
 	c.Require("pair_comparisons", 500)
 	c.Require("builds_with_merged_segments", 10)
 	c.Require("score_comparisons_unmerged", 100)
